@@ -59,6 +59,7 @@ NOT_APPLICABLE = [
     dict(property_id="C06", reason="decided inside tokio's LocalSet/current-thread scheduler (per-tick budget), reached only via block_on; tokio's runtime (thread-locals, parking, atomic wakers) is outside CBMC's reach and stubbing it would remove the subject"),
     dict(property_id="C13", reason="the property is about unwinding (catch_unwind); Kani has no unwinding semantics and cannot compile the call (unsupported try intrinsic); panics are modelled as abort"),
     dict(property_id="C17", reason="decisive code is Props::update_from/compartmentalize over serde_yml::Mapping (IndexMap + hashbrown SIMD probing + SipHash); a concrete one-entry map did not finish in 600 s under Kani and reports unsupported foreign/SIMD constructs; no separable string kernel exists"),
+    dict(property_id="C18", reason="elaboration, dependency ordering, generics/inheritance expansion and instantiation run through FxHashMap/serde_yml (hashbrown: a two-key insert does not finish in 300 s under CBMC); of the string grammar only FieldDef::from_str is tractable (harnesses c18_field_def_* exist and pass but decide no clause of the statement on their own) - TypClause/ModuleGenericsDef/ConnectionEndpointDef::from_str (str::split two-way searcher + collect) do not leave symex in 10-45 min even on 2-3 byte inputs"),
     dict(property_id="C20", reason="whole-simulation teardown through tokio runtimes, cyclic Arc graphs (the drop-glue recursion that must be stubbed out elsewhere) and global statics; only the event-set slice is decidable and is covered under C15"),
 ]
 
@@ -410,5 +411,29 @@ PROPS["C12"] = dict(
         H(M12, "c12_tree_prefix_siblings_long_first", tier="experimental", fs=4096, mem=30, bounds="CONCRETE scenario: insertion order ab, a, a.x, ab.x"),
         H(M12, "c12_tree_unrelated_siblings", tier="experimental", fs=4096, mem=30, bounds="CONCRETE scenario: siblings a, b; insertion order a, b, b.x, a.x"),
         H(MNR, "c09_restart_runs_stages_once", bounds="stage count symbolic 0..3; each stage once, ascending, bracketed"),
+    ],
+)
+
+
+# --------------------------------------------------------------------------- C18 NDL grammar kernels
+M18 = "ndl::def::verif_c18"
+PROPS["C18"] = dict(
+    crate="des-net-utils",
+    mounts=[dict(file="des-net-utils/src/ndl/def.rs", decl="mod verif_c18", harness="c18.rs")],
+    functions=["des_net_utils::ndl::def::{FieldDef,TypClause<String>,ModuleGenericsDef,ConnectionEndpointDef}::from_str"],
+    level_text="Claimed for the string-grammar kernels only (bounded model checking): FromStr of FieldDef, TypClause<String>, ModuleGenericsDef and ConnectionEndpointDef never panics and yields the value the text denotes for EVERY byte string of the stated length over the stated alphabet (one solver query per length). Everything else in the statement - dependency ordering, generics substitution, inheritance, cardinality expansion, instantiation into a Sim - runs through FxHashMap/serde (hashbrown is outside the encoding) and is NOT decided.",
+    claim="No stubs; any panic in the parser is a failing Kani check.",
+    assumptions=["alphabets: fields {a,[,],1,0,/}, type clauses {a,(,),','}, generics {a,<,-,space}", "string lengths 2..4"],
+    outside=["elaboration (transform_*), dependency ordering, generics, inheritance, instantiation (FxHashMap / serde_yml)", "strings longer than 4 bytes, non-ASCII input", "the second assert!(replacement_deps.is_empty()) in ndl/mod.rs (reached only through the FxHashMap-based elaboration)"],
+    harnesses=[
+        H(M18, "c18_field_def_len2", bounds="every 2-byte string over {a,[,],1,0,/}"),
+        H(M18, "c18_field_def_len3", bounds="every 3-byte string over {a,[,],1,0,/}"),
+        H(M18, "c18_field_def_len4", bounds="every 4-byte string over {a,[,],1,0,/}", tier="thorough"),
+        H(M18, "c18_typ_clause_open_paren", timeout=600, bounds="strings x '(' y with x in {a,b}, y in {a,')','('}"),
+        H(M18, "c18_typ_clause_unclosed2", timeout=600, bounds="strings x '(' with x in {a,b,'('}"),
+        H(M18, "c18_typ_clause_len2", tier="experimental", bounds="every 2-byte string over {a,(,),','}"),
+        H(M18, "c18_typ_clause_len3", tier="experimental", bounds="every 3-byte string over {a,(,),','}"),
+        H(M18, "c18_generics_def_len3", tier="experimental", bounds="every 3-byte string over {a,<,-,space}"),
+        H(M18, "c18_endpoint_def_len3", tier="experimental", bounds="every 3-byte string over {a,[,],1,0,/}"),
     ],
 )
